@@ -585,6 +585,12 @@ def live_part_types():
     return _LIVE_TYPES
 
 
+# the two main-part content types of a presentation python-pptx opens, spelled as the standard / Office spell them
+# (literals of the harness: the constants of the tree under test are what is being judged)
+STD_PPTX_MAIN = "application/vnd.openxmlformats-officedocument.presentationml.presentation.main+xml"
+STD_MACRO_MAIN = "application/vnd.ms-powerpoint.presentation.macroEnabled.main+xml"
+
+
 def ascii_upper(s):
     return "".join(c.upper() if c.isascii() else c for c in s)
 
@@ -895,7 +901,7 @@ def list_faults(members):
     if main is not None:
         for t in ("application/vnd.openxmlformats-officedocument.presentationml.slide+xml",
                   "application/vnd.openxmlformats-officedocument.presentationml.template.main+xml",
-                  "application/x-verif-unknown"):
+                  "application/x-verif-unknown", STD_MACRO_MAIN):
             out.append(("wrong-main", t))
         out.append(("del-member", main[1:]))
     out.append(("del-member", CT_NAME))
